@@ -15,6 +15,10 @@ PEDAL_DEVELOPERS = ["Austin Cory Bart <acbart@udel.edu>",
                     "Luke Gusukuma <lukesg08@vt.edu>"]
 
 
+#: Marks an overridden attribute that the class did not define itself
+_INHERITED = object()
+
+
 class FeedbackRegistry:
     def __init__(self):
         self._registered_feedback = {}
@@ -469,20 +473,33 @@ class Feedback:
 
     @classmethod
     def override(cls, report=MAIN_REPORT, **fields):
-        if cls._override_backups is None:
+        # Every class keeps its own backups: a subclass must not find (and
+        # later wipe) the dictionary of a base class that was overridden first.
+        if cls.__dict__.get('_override_backups') is None:
             cls._override_backups = {}
+        # Register first, so that a failure half-way is still undone by clear.
+        report.override_feedback(cls)
         for field, new_value in fields.items():
             if field not in cls._override_backups:
-                cls._override_backups[field] = getattr(cls, field)
+                # Unknown attributes are still an AttributeError
+                getattr(cls, field)
+                # Remember what the class itself defined (or that it merely
+                # inherited the attribute), not what the lookup found.
+                cls._override_backups[field] = cls.__dict__.get(field, _INHERITED)
             setattr(cls, field, new_value)
-        report.override_feedback(cls)
 
     @classmethod
     def _restore_overrides(cls):
-        for field, old_value in cls._override_backups.items():
-            setattr(cls, field, old_value)
-        cls._override_backups.clear()
-
+        backups = cls.__dict__.get('_override_backups')
+        if not backups:
+            return
+        for field, old_value in backups.items():
+            if old_value is _INHERITED:
+                if field in cls.__dict__:
+                    delattr(cls, field)
+            else:
+                setattr(cls, field, old_value)
+        backups.clear()
 
     @classmethod
     def override_for_pool(cls, pool, **fields):
